@@ -14,7 +14,9 @@ TABLE_EXTRA = ['a,b', '"q"', 'say "hi"', 'comma, space', "it's"]
 CXT_EXTRA = TABLE_EXTRA + ['a|b', '#1', 'p#q', '|', 'X|', 'c#']
 LIT_EXTRA = ["'", "both ' and \"", '\\', '\\n', "\\'", '\\x41', '\x00\x01\x1f\x7f', '\x80\x9f\xa0\xad\xff', '\u2028\u2029',
              '\ud7ff\ue000\ufffe', '\U0001f600', '\U000e0001', '\U0010ffff', 'a\u0300', '\u200b', '\ufeff', '\u0378', '\u0660', '{', '}', '(', ')', ':', '[',
-             "'''", '"""', '\\"', "\\\\'"]
+             "'''", '"""', '\\"', "\\\\'",
+             'a rather long label made of many short words so that a line of the emitted text exceeds a hundred columns by far',
+             'x' * 60 + ' ' + 'y' * 60, 'left right ' * 12 + 'end']
 CSV_EXTRA = CXT_EXTRA + [' lead', 'trail ', 'line\nbreak', 'cr\rinside', 'crlf\r\nin', '"', '""', ',', ',,', '\ttab', 'a\n', '\n', ' ', 'a\n\nb', 'x\n  \ny', 'a\r\n\r\nb', '\n\n']
 
 
@@ -418,6 +420,16 @@ def run(run):
                                 run.count('file ' + enc)
                     run.case('%s|%s' % (frmat, args), n * m > 1, {'format': frmat, 'objects': objs, 'properties': props, 'bools': bstr(bools)})
                     run.count(frmat)
+            # characters that str.splitlines() treats as line boundaries but the formats do not: inside labels they are data
+            if n * m <= 4:
+                seps = ['\x0b', '\x0c', '\x1c', '\x1d', '\x1e', '\x85', '\u2028', '\u2029']
+                labels = ['w%d%sz' % (k, rng.choice(seps)) for k in range(n + m)]
+                with guard(run, 'labels with inner separator characters %r' % (labels,), []):
+                    ctx = Context(labels[:n], labels[n:], bools)
+                    for frmat in ('table', 'cxt', 'csv', 'python-literal'):
+                        if Context.fromstring(ctx.tostring(frmat), frmat) != ctx:
+                            run.fail('fromstring(tostring(%s)) with %r inside labels' % (frmat, labels), None, None, [], {'labels': labels})
+                run.count('inner separator labels')
             # FIMI rows and concept .dat files
             objs = ['o%d' % i for i in range(n)]
             props = ['p%d' % j for j in range(m)]
